@@ -148,6 +148,7 @@ func (e *Engine) sigID(name, sym string) int {
 func init() {
 	reg := func(name string, f intrinsic) { intrinsics[rtPkg+name] = f }
 
+	reg("NativeSkip", func(e *Engine, fn *ssa.Function, a []Value) Value { return nil })
 	reg("EngineOnly", func(e *Engine, fn *ssa.Function, a []Value) Value { return nil })
 	reg("Thorough", func(e *Engine, fn *ssa.Function, a []Value) Value { return e.ts.Bool(e.cfg.Thorough) })
 	reg("Symbolic", func(e *Engine, fn *ssa.Function, a []Value) Value { return e.ts.True })
